@@ -29,8 +29,15 @@ def _run_chunk(chunk, nlines, obs_path, flags, timeout_ms, mem_kb):
     guard = 0
     while skip < nlines:
         guard += 1
-        if guard > 200:
-            raise ToolError("harness keeps dying; giving up on chunk " + chunk)
+        if guard > 25:
+            # the code under test hangs or dies on case after case: the verdict is already clear;
+            # the rest of the chunk is recorded as not run
+            with open(chunk) as f:
+                rest = [json.loads(l).get("id", -1) for i, l in enumerate(f) if i >= skip and l.strip()]
+            with open(obs_path, "a") as f:
+                for cid in rest:
+                    f.write(json.dumps({"id": cid, "outcome": "skipped", "accepted": False, "msg": "not run: too many hangs/aborts before it"}) + "\n")
+            return
         cmd = f"ulimit -v {mem_kb}; exec {PVH} replay --in {chunk} --out {obs_path} --skip {skip} --timeout-ms {timeout_ms} " + " ".join(flags)
         p = subprocess.run(["bash", "-c", cmd], stdout=subprocess.PIPE, stderr=subprocess.STDOUT, text=True)
         with open(obs_path) as f:
